@@ -39,7 +39,7 @@ Proof. split; reflexivity. Qed.
 
 Lemma morch_vd : value_and_derivative morch_f (fun y => morch_fd y) open_unit.
 Proof.
-  intros y [H1 H2]. unfold morch_fd, morch_f. cbv zeta. cbn [nth]. split; [reflexivity|split].
+  intros y [H1 H2]. unfold morch_fd, morch_f. cbv zeta. cbn [nth]. split; [first [reflexivity | ring | field]|split].
   - auto_derive; [ad_side|]. field.
   - interval with (i_bisect y, i_depth 8).
 Qed.
